@@ -44,7 +44,7 @@ _DEV = {}
 def setup(ctx):
     common.import_pyscsi()
     transports.set_handler(lambda cdb, dout, din: (0, None))
-    _DEV["sgio"] = transports.make_sgio()
+    _DEV["sgio"] = transports.make_sgio(readwrite=True)
     _DEV["iscsi"] = transports.make_iscsi()
 
 
@@ -195,6 +195,29 @@ def make_check(cmd, table):
                 expect(direction == want_dir, "mismatch:iscsi_direction", got=direction, want=want_dir)
                 want_len = len(c.dataout) if want_dir == 2 else (len(c.datain) if want_dir == 1 else 0)
                 expect(xferlen == want_len, "mismatch:iscsi_xferlen", got=xferlen, want=want_len)
+        # decoding the data-in buffer (what the facade does after execute) must leave both buffers as
+        # they were, so that inspecting or re-issuing the command still matches its CDB
+        if hasattr(c, "unmarshall_datain") and cmd.name not in PLIST and len(c.datain) <= 65536:
+            n_in, n_out = len(c.datain), len(c.dataout)
+            kw = {}
+            if cmd.name == "readcd":
+                kw = {k: a2.get(k, 0) for k in ("lba", "tl", "est", "mcsb", "c2ei", "scsb")}
+                if kw["est"] == 0:
+                    kw["mcsb"] = 0
+            if cmd.name == "inquiry":
+                kw = {"evpd": a2.get("evpd", 0)}
+            try:
+                c.unmarshall(**kw)
+            except Exception:  # noqa  zeroed data is not a conformant response: decode errors are not C03's business
+                pass
+            expect(len(c.datain) == n_in and len(c.dataout) == n_out, "mismatch:decoding_changed_a_buffer_length",
+                   datain=[n_in, len(c.datain)], dataout=[n_out, len(c.dataout)])
+            mark = transports.log_mark()
+            with lib("re-execute over iscsi"):
+                _DEV["iscsi"].execute(c)
+            e = [x for x in transports.log_since(mark) if x[0] == "iscsi.command"]
+            expect(len(e) == 1 and e[0][7] is not None and holds(din_rule, e[0][7]), "mismatch:reexecute_datain_length",
+                   got=e[0][7] if e else None, rule=din_rule)
         standins.LOG.clear()
         bs = a2.get("blocksize", 512) if isinstance(a2, dict) else 512
         classes = [cmd.name.rstrip("0123456789")]
